@@ -49,6 +49,10 @@ structure Audit (m : State) : Prop where
   lemit : ∀ l li e, m.listeners l = some li → li.sigs e ≠ [] → (m.emitters e).isSome = true ∧ e ∈ li.emKeys
   /-- every signal with data is a key of the emitter's map (`~Emitter` visits it) -/
   ekeys : ∀ e em g, m.emitters e = some em → (em.sig g).isSome → g ∈ em.sigKeys
+  /-- every slot list is in connection order: the node numbers (time of connection: `connect` stamps the
+      allocation counter, which only grows) increase strictly along the list and lie in the past — a new
+      connection, also a re-connection of a pair disconnected before, is the youngest and goes to the end -/
+  order : ∀ e g d, m.data e g = some d → Sorted d.slots ∧ ∀ x ∈ d.slots, x.node < m.nextNode
   /-- the two sides are inverse to each other as multisets: for every emitter, signal, listener and slot —
       destroyed objects included — the emitter side holds as many entries not marked `disconnected` as the
       listener side holds pairs -/
@@ -96,6 +100,7 @@ theorem audit_of_sim {m : State} {s : SState} {K : MStack} (h : Sim m s K) : Aud
         simp only [State.data, hem] at hc
         simp at hc
   ekeys := h.b.ekeys
+  order := fun e g d hd => ⟨h.sl.sorted e g d hd, h.sl.bound e g d hd⟩
   inverse := by
     intro e g l x
     unfold emitterSide listenerSide
